@@ -103,6 +103,15 @@ def run_case(case):
         tags.append("broadcast")
     if r0["cls"] == "unspecified":
         return ("unspecified", None)
+    if r0["cls"] == "ok":
+        # scenarios whose ideal value (or the factor of the result units) leaves the range of a double are not judged
+        try:
+            with np.errstate(all="ignore"):
+                probe = [T.ev(r["base"]) for r in recs] + [T.ev(r["val"]) for r in recs] + [T.ev(r["base"], mag=True) for r in recs]
+            if any((not np.isfinite(x)) or (x != 0 and not (1e-290 < abs(x) < 1e290)) for x in probe):
+                return ("unspecified", None)
+        except (ZeroDivisionError, OverflowError):
+            return ("unspecified", None)
     try:
         a = _operand(r0["a"], r0["side"] == "nq", [r["a"]["v"] for r in recs], style, numkind)
         bvals = [r["b"]["v"] for r in recs]
@@ -381,6 +390,7 @@ def run(replay=None):
         "symbols and the two-letter prefix 'da' are outside the concretisation",
         "tolerance rel 1e-9 of the magnitude of the computation (differences are judged against |a|+|b|)",
         "division by zero, 0**n (n<=0) and fractional powers of negative numbers are unspecified and not judged",
+        "scenarios whose ideal base value, value or unit factor is outside 1e-290..1e290 (stacked extreme prefixes) are not judged",
     ]
     C.cleanup(PID)
     return V.finish()
